@@ -6,7 +6,8 @@
    driver's environment (stub child policies, recording ClientConn).
    Child policies and sub-channels are numbered in creation order.
    The goroutine started by swap() (cur.Close()) is run at the end of the
-   operation that swapped (the driver waits for it with synctest.Wait()).
+   operation that swapped (the driver waits for it with synctest.Wait()), or, for
+   operation 12, inside the channel's NewSubConn (newsc_during).
    No proofs here. *)
 From Coq Require Import List ZArith Bool Arith.
 From VLib Require Import Codec.
@@ -192,6 +193,30 @@ Definition bal_to_update (s : st) (sc : nat) : option nat :=
             end
   end.
 
+(* the goroutine of swap(): cur.Close() *)
+Definition finish (s : st) : st * list word :=
+  close_opt (set_toclose s None) (toclose s).
+
+(* balancerWrapper.NewSubConn called by policy id while, inside the channel's NewSubConn
+   (gsb.mu is not held there), policy j reports state v and the resulting swap - including
+   the asynchronous Close of the old wrapper - completes before the channel returns.
+   Afterwards NewSubConn re-checks balancerCurrentOrPending: a wrapper that was closed
+   during the call shuts the new sub-channel down and returns an error.
+   (The sub-channel exists in the channel while j reports; nothing j's report can do
+   touches it, so the model creates it after the report; its number is the same.) *)
+Definition newsc_during (s : st) (id j : nat) (v : Z) : st * list word :=
+  if negb (live s id) then (s, [[11; 0; -1]])
+  else
+    let '(s1, e1) := child_update s j v in
+    let '(s2, e2) := finish s1 in
+    let sc := nsc s2 in
+    if live s2 id then
+      let '(s3, e3, _) := child_newsc s2 id in
+      (s3, e3 ++ e1 ++ e2 ++ [[11; 1; zn sc]])
+    else
+      (set_scs s2 (fupd (scs s2) sc (fun _ => (id, true))) (S sc),
+       [evN sc] ++ e1 ++ e2 ++ [evS sc; [11; 0; -1]]).
+
 (* synchronous part of one operation *)
 Definition step_main (cfg : word) (s : st) (op : word) : st * list word :=
   let a1 := arg op 1 in let a2 := arg op 2 in
@@ -259,12 +284,12 @@ Definition step_main (cfg : word) (s : st) (op : word) : st * list word :=
           | Some id, Some sc => if live s id then (s, [[10; zn sc]]) else (s, [])
           | _, _ => (s, [])
           end
+  | 12 => match kid_of s a1, kid_of s a2 with
+          | Some id, Some j => if (0 <=? arg op 3) && (arg op 3 <=? 3) then newsc_during s id j (arg op 3) else (s, [])
+          | _, _ => (s, [])
+          end
   | _ => (s, [])
   end.
-
-(* the goroutine of swap(): cur.Close() *)
-Definition finish (s : st) : st * list word :=
-  close_opt (set_toclose s None) (toclose s).
 
 Definition step (cfg : word) (s : st) (op : word) : st * list word :=
   let '(s1, e1) := step_main cfg s op in
@@ -333,13 +358,18 @@ Definition expected (cfg : word) (s : st) (op : word) : list (Z * Z) * list nat 
            end
          else ([], [])
   | 8 => match latest s with Some _ => ([], []) | None => ([(TF, -1)], []) end
+  | 12 => match kid_of s a1, kid_of s a2 with
+          | Some id, Some j =>
+            if (0 <=? arg op 3) && (arg op 3 <=? 3) && live s id then spec_report s j (arg op 3) else ([], [])
+          | _, _ => ([], [])
+          end
   | _ => ([], [])
   end.
 
 (* the acting policy of an operation issued by a child policy *)
 Definition actor (s : st) (op : word) : option nat :=
   match arg op 0 with
-  | 2 | 3 | 10 | 11 => kid_of s (arg op 1)
+  | 2 | 3 | 10 | 11 | 12 => kid_of s (arg op 1)
   | _ => None
   end.
 
@@ -362,6 +392,18 @@ Definition chan_event (w : word) : bool :=
   | _ => false
   end.
 Definition has_shutdown (l : list word) (sc : nat) : bool := existsb (word_eqb (evS sc)) l.
+(* sub-channels the channel created in this chunk *)
+Definition n_events (l : list word) : list Z :=
+  flat_map (fun w => match w with [2; sc] => [sc] | _ => [] end) l.
+Definition has_shutdown_z (l : list word) (sc : Z) : bool := existsb (word_eqb [14; sc]) l.
+(* a policy closed during its own operation: the sub-channels created for it in this very
+   operation (NewSubConn in flight while it was swapped out) have been shut down too *)
+Definition inflight_ok (s : st) (op : word) (chunk : list word) : bool :=
+  match actor s op with
+  | Some id => negb (existsb (Z.eqb (zn id)) (c_events chunk)) ||
+               forallb (has_shutdown_z chunk) (n_events chunk)
+  | None => true
+  end.
 
 Fixpoint pairs_eqb (a b : list (Z * Z)) : bool :=
   match a, b with
@@ -388,7 +430,7 @@ Definition clause_op (cfg : word) (s : st) (op : word) (chunk : list word) (i : 
            end);
     (1, i, pairs_eqb (u_events chunk) (fst ex));
     (2, i, word_eqb (c_events chunk) (map zn (snd ex)));
-    (4, i, forallb (shut_ok s chunk) (c_events chunk)) ].
+    (4, i, forallb (shut_ok s chunk) (c_events chunk) && inflight_ok s op chunk) ].
 
 (* events of one operation: up to and including the [0] marker *)
 Fixpoint split_chunk (obs : list word) : option (list word * list word) :=
